@@ -149,6 +149,7 @@ class PRQLParser(parser.Parser):
 
         name = self._curr.text.upper()
         func_builder = self.FUNCTIONS.get(name)
+        func = None
         if func_builder:
             self._advance()
             args = self._parse_column()
